@@ -153,6 +153,10 @@ class Wsdl11(XmlSchema):
 
         service_name = self.interface.get_name()
 
+        # nothing of an earlier (possibly failed) build goes into this one
+        self.port_type_dict = {}
+        self.service_elt_dict = {}
+
         # create wsdl root node
         self.root_elt = root = etree.Element(WSDL11("definitions"),
                                                      nsmap=self.interface.nsmap)
